@@ -388,6 +388,96 @@ pub fn equal_weight_forgery<S: Sch<F = Fr381, Pt = Fr381>>(rec: &mut Rec, g_of: 
     }
 }
 
+
+/// Constructive forgery against a verifier whose column positions do not depend on the opened vector `v`
+/// (weak Fiat-Shamir): univariate Ligero, a polynomial wide enough that fewer positions are queried than the
+/// matrix has columns (degree 4095: 8 x 512, 191 queries).  Take the honest proof, read the queried positions Q
+/// off its paths, and replace `v` by `v + delta` with `delta(X) = c * prod_{q in Q} (X - w^q)`: the Reed-Solomon
+/// encoding of `delta` vanishes at every queried position, so all column tests still pass if the verifier
+/// queries Q again; the claimed value moves by `delta(z) != 0`.  Against a sound verifier the positions are
+/// squeezed after `v` was absorbed, so the forged `v` moves them and the proof is rejected.  One polynomial per
+/// call, and two equally wide polynomials in one call with the first / the second one forged.
+pub fn lig_vanishing_forgery(rec: &mut Rec) {
+    use crate::mirror::{convert, MComm, MProof};
+    use ark_ff::{Field, Zero};
+    use ark_poly::{DenseUVPolynomial, EvaluationDomain, GeneralEvaluationDomain};
+    type S = SLig;
+    let deg = 4095usize;
+    let r = crate::alpha::rho_stream::<Fr381>(rec.seed, 41, 2 * (deg + 1));
+    for wf in [true, false] {
+        for (scn, npolys, target) in [("single", 1usize, 0usize), ("first-of-two", 2, 0), ("second-of-two", 2, 1)] {
+            for zn in ["r1", "r2"] {
+                let id = format!("LIG/forge/vanishing-at-queried-positions/wf={}/{}/z={}", wf, scn, zn);
+                if !rec.take(&id) {
+                    continue;
+                }
+                rec.dim("scheme", "LIG");
+                let mut cfg = KeyCfg::uni(1 << 20, 1 << 20, 1, None);
+                cfg.lc = Some((128, 4, wf));
+                let keys = match build_keys::<S>(&cfg, rec.seed) {
+                    Ok(k) => k,
+                    Err(_) => continue,
+                };
+                let polys: Vec<LP<S>> = (0..npolys).map(|i| lp::<S>(&format!("p{}", i), UP::<Fr381>::from_coefficients_slice(&r[i * (deg + 1)..(i + 1) * (deg + 1)]), None, None)).collect();
+                let c = match commit_set::<S>(&keys, polys, rec.seed, 0) {
+                    Ok(c) => c,
+                    Err(_) => continue,
+                };
+                let z = crate::alpha::rho::<Fr381>(rec.seed, if zn == "r1" { 1 } else { 2 });
+                let sel: Vec<usize> = (0..npolys).collect();
+                let s1 = match open_single::<S>(&keys, &c, &sel, &z, 0, rec.seed, 0) {
+                    Ok(s) => s,
+                    Err(_) => continue,
+                };
+                rec.op(3);
+                let bp: BPf<S> = vec![s1.proof.clone()].into();
+                let mut mps: Vec<Vec<MProof<Fr381>>> = convert(&bp);
+                let cm: MComm = convert(c.comms[target].commitment());
+                let (n_cols, n_ext) = (cm.metadata.n_cols, cm.metadata.n_ext_cols);
+                let mut qs: Vec<usize> = mps[0][target].opening.paths.iter().map(|p| p.leaf_index).collect();
+                qs.sort();
+                qs.dedup();
+                if qs.len() + 1 > n_cols {
+                    rec.class("forgery-not-applicable");
+                    continue;
+                }
+                let dom = match GeneralEvaluationDomain::<Fr381>::new(n_ext) {
+                    Some(d) => d,
+                    None => continue,
+                };
+                // delta(X) = prod (X - w^q)
+                let mut delta = vec![Fr381::one()];
+                for q in qs.iter() {
+                    let w = dom.element(*q);
+                    let mut next = vec![Fr381::zero(); delta.len() + 1];
+                    for (i, d) in delta.iter().enumerate() {
+                        next[i + 1] += *d;
+                        next[i] -= w * *d;
+                    }
+                    delta = next;
+                }
+                let dz = UP::<Fr381>::from_coefficients_slice(&delta).evaluate(&z);
+                if dz.is_zero() {
+                    continue;
+                }
+                {
+                    let v = &mut mps[0][target].opening.v;
+                    for (i, d) in delta.iter().enumerate() {
+                        v[i] += *d;
+                    }
+                }
+                let forged: BPf<S> = convert(&mps);
+                let list: Vec<Pf<S>> = forged.into();
+                let mut values = s1.values.clone();
+                values[target] += dz;
+                let comms: Vec<&LCm<S>> = c.comms.iter().collect();
+                let d = check_single::<S>(&keys, &comms, &z, &values, &list[0], 0, rec.seed, 0);
+                expect_reject(rec, &d, "LIG", "check", "forged:opening-vector-plus-polynomial-vanishing-at-the-queried-positions", &id, format!("{} distinct queried positions of {} columns; claimed value moved by delta(z)", qs.len(), n_cols));
+            }
+        }
+    }
+}
+
 pub fn run(rec: &mut Rec) {
     let (w, ms) = if rec.thorough() { (Width::Wide, 3) } else { (Width::Medium, 2) };
     crate::for_each_scheme!(S, {
@@ -396,6 +486,7 @@ pub fn run(rec: &mut Rec) {
         mutate_batch::<S>(rec, ms);
     });
     ipa_padded_forgery(rec);
+    lig_vanishing_forgery(rec);
     equal_weight_forgery::<SMar>(rec, &|vk| vk.vk.g, &|p, w| ark_poly_commit::kzg10::Proof { w, random_v: p.random_v }, &|p| p.w);
     equal_weight_forgery::<SSon>(rec, &|vk| vk.g, &|p, w| ark_poly_commit::kzg10::Proof { w, random_v: p.random_v }, &|p| p.w);
     crate::special::c03_special(rec);
